@@ -26,6 +26,7 @@ typedef struct { int pid; int64_t prio; double etime; } gent;
 /* arrival order at a waiting list, kept by the harness: at most one process enters a given list per event, so the event
  * number in which it (last) entered orders same-instant arrivals of equal priority */
 static uint64_t garr[MAXGUARD][MAXP];
+static uint64_t garr_call[MAXGUARD][MAXP];     /* the call (callseq) in which the arrival stamp was taken */
 #define MAXGENT 48
 static gent gbefore[MAXGUARD][MAXGENT]; static int ngbefore[MAXGUARD];
 static uint64_t pool_before[MAXPOOL][MAXP];
@@ -78,6 +79,7 @@ void mon_reset(void)
     wk_reset();
     nfired = 0;
     memset(garr, 0, sizeof garr);
+    memset(garr_call, 0, sizeof garr_call);
     memset(rec_cand, 0, sizeof rec_cand);
     main_csr = _mm_getcsr() & ~0x3fu;
 }
@@ -802,7 +804,14 @@ void mon_after_event(void)
             for (int k = 0; k < ngbefore[g]; k++) if (gbefore[g][k].pid == after[a].pid) b = k;
             if (b >= 0 && !PR[after[a].pid].ran_this_event && after[a].etime != gbefore[g][b].etime)
                 viol("C06", "entry-time-changed", "process %d kept waiting in a %s list but its waiting-since time changed from %g to %g", after[a].pid, gcname(W.guards[g].cls), gbefore[g][b].etime, after[a].etime);
-            if (b < 0 || PR[after[a].pid].ran_this_event) garr[g][after[a].pid] = ev_seq + 1;     /* entered (or left and entered again) in this event */
+            if (b < 0 || PR[after[a].pid].ran_this_event) {      /* entered (or left and entered again) in this event */
+                /* its place among same-instant arrivals is the one it took when the call began to wait: a process that comes
+                 * back to the list inside one call has been in line all along */
+                const proc *q = &PR[after[a].pid];
+                const bool same_call = q->op != OP_NONE && !q->finished && guard_of_wait(q) == g && garr_call[g][after[a].pid] == q->callseq && garr[g][after[a].pid] != 0;
+                if (same_call) PROBE("c06.rewait_keeps_arrival_stamp");
+                else { garr[g][after[a].pid] = ev_seq + 1; garr_call[g][after[a].pid] = q->op != OP_NONE ? q->callseq : 0; }
+            }
             /* a process that is served in part, or robbed of a grant, and waits again inside the same call has been waiting since
              * that call began: it keeps its place among its equals */
             if (PR[after[a].pid].op != OP_NONE && !PR[after[a].pid].finished && guard_of_wait(&PR[after[a].pid]) == g
